@@ -85,6 +85,8 @@ type Field struct {
 	Key  string            `json:"key"`            // schema key
 	Tags map[string]string `json:"tags,omitempty"` // struct tags json/form/query/env/zog
 	Node *Node             `json:"node"`
+	// Embed: the destination declares this field as an embedded (anonymous) struct field; struct nodes only
+	Embed bool `json:"embed,omitempty"`
 }
 
 // GoName is the destination field name zog derives from the schema key.
